@@ -29,6 +29,7 @@ def make_jobs(ctx):
         for bp in (1, 22):
             jobs.append(wasi_job(ctx, "W.%s_get.buf%d" % (tag, bp), src, "h_vec_get", ["wasi.c:%s_get" % fn], defines=defs + ["GMEM=40", "ARGS_BP=%du" % bp],
                                  bounded=B + "; string buffer at guest address %d, pointer array anywhere" % bp, unwind=42, unwindset=US))
+    jobs.append(wasi_job(ctx, "W.init_vectors", src, "h_init_vectors", ["wasi.c:wasiInit"], defines=["GMEM=40"], bounded="environment of <= 3 strings of <= 2 bytes (any byte values, also empty strings)", unwind=42, unwindset="wasiInit.0:5"))
     jobs.append(wasi_job(ctx, "W.clock_time_get", src, "h_clock", ["wasi.c:clock_time_get", "wasi.c:wasiClockTimeGet"], defines=["GMEM=32"], unwind=34,
                          bounded="seconds < 16 in this marshalling obligation; the conversion itself is W.convertTimespec (all values)"))
     jobs.append(wasi_job(ctx, "W.clock_res_get", src, "h_clock", ["wasi.c:clock_res_get", "wasi.c:wasiClockResGet"], defines=["GMEM=32", "CLOCK_RES"], unwind=34,
